@@ -80,9 +80,40 @@ func ruleXRefCompleteness(c *core.Ctx) {
 			}
 			for _, cs := range core.CallsIn(info, v.AST, false) {
 				if strings.HasSuffix(cs.Key, ".WriteByte") {
-					for _, vc := range valueCases(g, v, cs.Call.Args[0], 2) {
+					vcs := valueCases(g, v, cs.Call.Args[0], 2)
+					for _, vc := range vcs {
 						if k, isK := core.IntConst(info, vc.Expr); isK && k == 0 && g.EdgeDominates(vc.V, nilEdge...) {
 							ok = true
+						}
+					}
+					// the type is a variable that keeps its zero value on the
+					// nil edge: from that edge the write is reached, and no
+					// assignment of another value lies on the way
+					if !ok && len(vcs) > 1 {
+						var nonZero []*core.V
+						zero := false
+						for _, vc := range vcs {
+							if k, isK := core.IntConst(info, vc.Expr); isK && k == 0 {
+								zero = true
+							} else {
+								nonZero = append(nonZero, vc.V)
+							}
+						}
+						if zero {
+							good := true
+							for _, e := range nilEdge {
+								st := succ(e.From, e.Label)
+								if !g.ReachFrom(st, true, core.AvoidVs(append(append([]*core.V{}, nonZero...), head)...))[v] {
+									good = false
+								}
+								r := g.ReachFrom(st, true, core.AvoidVs(head, v))
+								for _, d := range nonZero {
+									if r[d] {
+										good = false
+									}
+								}
+							}
+							ok = good
 						}
 					}
 				}
@@ -161,7 +192,8 @@ func ruleXRefCompleteness(c *core.Ctx) {
 								// the value chosen together with the type byte (same definition), else as written
 								val := core.ExprStr(c2.Call.Args[1])
 								for _, fc := range valueCases(g, next, c2.Call.Args[1], 2) {
-									if fc.V == tc.V {
+									// chosen in the same statement, or in the same arm as the type byte
+									if fc.V == tc.V || (tc.V != v && fc.V != next && sameBranch(g, tc.V, fc.V)) {
 										val = core.ExprStr(fc.Expr)
 									}
 								}
